@@ -19,14 +19,16 @@ RULE = (
     "section types File.read actually uses; after the sequence: the active lists of parent and sibling. Judged by "
     "Spec.C19.holds (greatest key <= v in string order, order-free; no key below -> unchanged; parent and sibling "
     "untouched) and compared with the model. Exhaustive: every subset and every declaration order of a 4-key "
-    "alphabet x 9 requests x all sequences up to length 2 (3 thorough) x three families. non-trivial = the table is "
+    "alphabet x 10 requests (incl. the default name 'latest') x all sequences up to length 2 (3 thorough) x three "
+    "families; plus interleaved selections on parent / child / sibling with their own tables incl. the same string on "
+    "two classes. non-trivial = the table is "
     "not empty; distinct by full case."
 )
 ASSUMPTIONS = ["single inheritance class trio (parent, child, sibling); version keys are str"]
 TRUSTED = []
 EXHAUSTIVE = {"quick": True, "thorough": True}
 KEYS = ["v1", "v10", "v2", "v1.5"]
-REQS = ["v0", "v1", "v1.2", "v1.5", "v10", "v10x", "v2", "v9", ""]
+REQS = ["v0", "v1", "v1.2", "v1.5", "v10", "v10x", "v2", "v9", "", "latest"]
 FAMILIES = ["register", "block", "section"]
 
 
@@ -76,23 +78,20 @@ def build(case):
 
         comps = [mk(i) for i in range(8)]
     lists = {i: [comps[i]] for i in range(8)}
-    pns = {"__slots__": []}
-    if case.get("parent_init") is not None:
-        pns[attr] = lists[case["parent_init"]]
-    table = {codec.dec_str(k): lists[v] for k, v in case["table"]}
-    if case.get("table_on_parent"):
-        pns["VERSIONS"] = table
-    Parent = type("P", (Base,), pns)
-    cns = {"__slots__": []}
-    if not case.get("table_on_parent"):
-        cns["VERSIONS"] = table
-    if case.get("init") is not None:
-        cns[attr] = lists[case["init"]]
-    Child = type("C", (Parent,), cns)
-    sns = {"__slots__": []}
-    if case.get("sibling_init") is not None:
-        sns[attr] = lists[case["sibling_init"]]
-    Sibling = type("S", (Parent,), sns)
+    tables = [None if t is None else {codec.dec_str(k): lists[v] for k, v in t} for t in case["tables"]]
+    init = case["init"]
+
+    def ns_for(i):
+        ns = {"__slots__": []}
+        if tables[i] is not None:
+            ns["VERSIONS"] = tables[i]
+        if init[i] is not None:
+            ns[attr] = lists[init[i]]
+        return ns
+
+    Parent = type("P", (Base,), ns_for(0))
+    Child = type("C", (Parent,), ns_for(1))
+    Sibling = type("S", (Parent,), ns_for(2))
     return attr, comps, lists, Parent, Child, Sibling
 
 
@@ -118,12 +117,13 @@ def used_by_read(fam, cls, comps):
 def run_impl(case):
     try:
         attr, comps, lists, P, C, S = build(case)
-        aa, used = [], []
-        for v in case["requests"]:
-            C.set_version(codec.dec_str(v))
-            aa.append(which(lists, getattr(C, attr)))
-            used.append(used_by_read(case["family"], C, comps))
-        return {"active_after": aa, "parent_active": which(lists, getattr(P, attr)), "sibling_active": which(lists, getattr(S, attr)), "used": used}
+        classes = [P, C, S]
+        trace, used = [], []
+        for c, v in case["ops"]:
+            classes[c].set_version(codec.dec_str(v))
+            trace.append([which(lists, getattr(k, attr)) for k in classes])
+            used.append(used_by_read(case["family"], classes[c], comps))
+        return {"trace": trace, "used": used}
     except Exception as e:
         return codec.enc_exc(e)
 
@@ -131,8 +131,12 @@ def run_impl(case):
 def request(case, obs):
     if "harness_exc" in obs:
         obs = {"exc": "harness"}
-    o = {k: v for k, v in obs.items() if k != "used"}
-    return {"op": "c19", "table": case["table"], "init": case.get("init"), "parent_init": case.get("parent_init"), "sibling_init": case.get("sibling_init"), "table_on_parent": bool(case.get("table_on_parent")), "requests": case["requests"], "obs": o}
+    return {"op": "c19", "tables": case["tables"], "init": case["init"], "ops": case["ops"], "obs": obs["trace"] if "trace" in obs else obs}
+
+
+def show_case(case):
+    tb = [None if t is None else [(codec.dec_str(k), v) for k, v in t] for t in case["tables"]]
+    return f"tables(parent,child,sibling)={tb} init={case['init']} selections={[('PCS'[c], codec.dec_str(v)) for c, v in case['ops']]}"
 
 
 def judge(case, obs, resp):
@@ -141,39 +145,34 @@ def judge(case, obs, resp):
     if "harness_exc" in obs:
         return {"status": "error", "why": f"harness: {obs['harness_exc']} {obs.get('msg')}"}
     if not resp["model_holds"]:
-        return {"status": "error", "why": f"the MODEL violates Spec.C19.holds: {resp.get('model')}"}
+        return {"status": "error", "why": f"the MODEL violates Spec.C19.holdsTrace: {resp.get('model')}"}
     if "exc" in obs:
         return {"status": "oracle", "why": f"set_version/read raised {obs['exc']}: {obs.get('msg')}"}
-    tbl = [(codec.dec_str(k), v) for k, v in case["table"]]
-    reqs = [codec.dec_str(v) for v in case["requests"]]
     if not resp["holds"]:
-        return {"status": "oracle", "why": f"table {tbl} requests {reqs}: active lists {obs['active_after']} parent {obs['parent_active']} sibling {obs['sibling_active']}; required {resp['model']}"}
-    # the list File.read uses is the active one (sections are read unconditionally, blocks/registers by dispatch)
-    for a, u in zip(obs["active_after"], obs["used"]):
-        want = [] if a is None else [a]
-        if case["family"] == "section":
-            ok = u == want
-        else:
-            ok = u == want
-        if not ok:
-            return {"status": "oracle", "why": f"table {tbl} requests {reqs}: File.read used component types {u} while list {a} is active"}
+        return {"status": "oracle", "why": f"{show_case(case)}: active lists (parent, child, sibling) after each selection {obs['trace']}; required {resp['model']}"}
+    for (c, v), row, u in zip(case["ops"], obs["trace"], obs["used"]):
+        want = [] if row[c] is None else [row[c]]
+        if u != want:
+            return {"status": "oracle", "why": f"{show_case(case)}: File.read used component types {u} while list {row[c]} is active"}
     if not resp["agree"]:
         return {"status": "corr", "why": "model and implementation disagree"}
     return {"status": "ok", "why": ""}
 
 
 def nontrivial(case):
-    return len(case["table"]) > 0
+    return any(t for t in case["tables"])
 
 
 def features(case, obs):
-    f = [f"family={case['family']}", f"nkeys={len(case['table'])}", f"nrequests={len(case['requests'])}"]
-    keys = sorted(codec.dec_str(k) for k, _ in case["table"])
-    for v in case["requests"]:
+    f = [f"family={case['family']}", f"nkeys={len(case['tables'][1] or [])}", f"nselections={len(case['ops'])}"]
+    for c, v in case["ops"]:
+        t = case["tables"][c] if case["tables"][c] is not None else case["tables"][0]
+        keys = sorted(codec.dec_str(k) for k, _ in (t or []))
         v = codec.dec_str(v)
         below = [k for k in keys if k <= v]
         f.append("request_below_all" if not below else ("request_equal" if v in keys else ("request_above_all" if len(below) == len(keys) else "request_between")))
-    if case.get("table_on_parent"):
+        f.append("selection_on=" + "PCS"[c])
+    if case["tables"][1] is None and case["tables"][0] is not None:
         f.append("table_inherited_from_parent")
     return f
 
@@ -204,16 +203,36 @@ def exhaustive_cases(family, maxseq):
                     for k, seq in enumerate(seqs):
                         if L >= 2 and n >= 3 and k % 3 != 0:
                             continue  # thin out the largest block
-                        yield {"family": family, "table": table, "init": 0, "parent_init": 6, "sibling_init": None if k % 2 else 7, "requests": [codec.enc_str(v) for v in seq]}
+                        yield {"family": family, "tables": [None, table, None], "init": [6, 0, None if k % 2 else 7], "ops": [[1, codec.enc_str(v)] for v in seq]}
+
+
+def hierarchy_cases(family):
+    """selections interleaved over parent / child / sibling, each with its own table: every pair of
+    (first class, second class) x request strings incl. the SAME string on both and the default name 'latest'"""
+    pt = [[codec.enc_str("v1"), 4], [codec.enc_str("v2"), 5]]
+    ct = [[codec.enc_str("v1"), 1], [codec.enc_str("v2"), 2], [codec.enc_str("1.0"), 3]]
+    reqs = ["v1", "v2", "v0", "latest", "v1.5", "1.0"]
+    for tables in ([pt, ct, None], [pt, ct, ct], [None, ct, pt], [pt, None, ct]):
+        for init in ([6, 0, 7], [6, None, None], [None, 0, None]):
+            for c1 in range(3):
+                for c2 in range(3):
+                    for v1 in reqs:
+                        for v2 in reqs:
+                            yield {"family": family, "tables": tables, "init": init, "ops": [[c1, codec.enc_str(v1)], [c2, codec.enc_str(v2)]]}
+                            if v1 == v2:
+                                yield {"family": family, "tables": tables, "init": init, "ops": [[c1, codec.enc_str(v1)], [c2, codec.enc_str(v2)], [c2, codec.enc_str("v2")], [c1, codec.enc_str(v1)]]}
 
 
 def random_case(rng):
-    n = rng.randrange(0, 5)
-    pool = KEYS + ["v3", "V1", "v", "1", "v1 "]
-    keys = rng.sample(pool, n)
-    table = [[codec.enc_str(k), rng.randrange(1, 6)] for k in keys]
-    reqs = [codec.enc_str(rng.choice(REQS + pool + ["v99", "w", "v1.", "v10 "])) for _ in range(rng.randrange(1, 5))]
-    return {"family": rng.choice(FAMILIES), "table": table, "init": rng.choice([0, None]), "parent_init": rng.choice([6, None]), "sibling_init": rng.choice([7, None]), "table_on_parent": rng.random() < 0.25, "requests": reqs}
+    pool = KEYS + ["v3", "V1", "v", "1", "v1 ", "latest", "1.0"]
+
+    def tbl():
+        if rng.random() < 0.3:
+            return None
+        return [[codec.enc_str(k), rng.randrange(1, 6)] for k in rng.sample(pool, rng.randrange(0, 5))]
+
+    ops = [[rng.choice([1, 1, 1, 0, 2]), codec.enc_str(rng.choice(REQS + pool + ["v99", "w", "v1.", "v10 "]))] for _ in range(rng.randrange(1, 6))]
+    return {"family": rng.choice(FAMILIES), "tables": [tbl(), tbl(), tbl()], "init": [rng.choice([6, None]), rng.choice([0, None]), rng.choice([7, None])], "ops": ops}
 
 
 def corpus_cases():
@@ -232,6 +251,7 @@ def chunks(tier, seed):
     for fam in FAMILIES:
         for p in range(4):
             ch.append({"kind": "exh", "family": fam, "maxseq": maxseq if fam == "register" else max(1, maxseq - 1), "part": p, "of": 4})
+        ch.append({"kind": "hier", "family": fam})
     nrand = {"quick": 2000, "thorough": 40000}.get(tier, 6000)
     for i in range(4):
         ch.append({"kind": "random", "seed": seed * 1000 + i, "n": nrand // 4})
@@ -241,6 +261,8 @@ def chunks(tier, seed):
 def cases_of(chunk):
     if chunk["kind"] == "corpus":
         yield from corpus_cases()
+    elif chunk["kind"] == "hier":
+        yield from hierarchy_cases(chunk["family"])
     elif chunk["kind"] == "exh":
         for i, c in enumerate(exhaustive_cases(chunk["family"], chunk["maxseq"])):
             if i % chunk["of"] == chunk["part"]:
@@ -252,10 +274,14 @@ def cases_of(chunk):
 
 
 def shrinks(case):
-    r = case["requests"]
+    r = case["ops"]
     for i in range(len(r)):
         if len(r) > 1:
-            yield {**case, "requests": r[:i] + r[i + 1 :]}
-    t = case["table"]
-    for i in range(len(t)):
-        yield {**case, "table": t[:i] + t[i + 1 :]}
+            yield {**case, "ops": r[:i] + r[i + 1 :]}
+    for c in range(3):
+        t = case["tables"][c]
+        if t:
+            for i in range(len(t)):
+                tt = list(case["tables"])
+                tt[c] = t[:i] + t[i + 1 :]
+                yield {**case, "tables": tt}
